@@ -1,0 +1,2 @@
+//! verif::feature — guarded hooks (cfg rustybuzz_verif).
+#![allow(unused_imports)]
